@@ -313,5 +313,25 @@ def run(ctx):
         if site and site[0]:
             extra = " [last array operation at %s:%s in %s]" % (site[0].split("/src/")[-1], site[1], site[2])
         ctx.add(Finding("C07", "C07.AXI." + kind, q, "%s (%d of the swept configurations fail)%s" % (what, len(items), extra), pm.path(MODELS_MOD), node.lineno, cfg, kind))
+    # "for every parameter value": the parameters are the array leaves that receive a gradient.  The invariant filter bank
+    # must not be one of them -- an optimiser step would move it off the invariant subspace and no identity above would
+    # survive.  Decided by the taint run of C09 (symbols passing through jax.lax.stop_gradient during the forward pass are
+    # renamed; no output element may depend on an un-renamed bank symbol), on this property's own entry points.
+    from .c09 import taint_worker
+
+    tspecs = [dict(cls="ConvBlock", D=2, depth=1, input=[((0, 0), 1), ((1, 0), 1)], output=[((1, 0), 1), ((0, 0), 1)], use_group_norm=True, activation="relu", use_bias="auto"),
+             dict(cls="ResNet", D=2, depth=1, input=[((0, 0), 1), ((1, 0), 1)], output=[((1, 0), 1), ((0, 0), 1)], use_group_norm=True, activation="relu", use_bias="auto", num_conv=1)]
+    tby = {}
+    for job, r in ctx.pairs(taint_worker, [(ctx.repo, s_) for s_ in tspecs], chunk=1):
+        ev.obligation("bank-not-a-parameter", not r["problems"], tuple(str(v) for v in sorted(r["cfg"].items())))
+        for kind, what, site in r["problems"]:
+            tby.setdefault(kind, []).append((what, site, r["cfg"]))
+    for kind, items in sorted(tby.items()):
+        what, site, cfg = items[0]
+        node = pm.func(LAYERS_MOD, "ConvContract.individual_convolve")
+        path_, line_ = pm.path(LAYERS_MOD), node.lineno
+        if site and site[0]:
+            path_, line_ = site[0], site[1]
+        ctx.add(Finding("C07", "C07.TAINT." + kind, "ConvContract.individual_convolve", "%s: the bank is then a trainable parameter, and the layer is equivariant only for the parameter values that keep it invariant (%d of the swept configurations fail)" % (what, len(items)), path_, line_, cfg, "bank-" + kind))
     ev.instances("C07.AXI.obligations", ev.obligations, floor=10 if ctx.tier == "quick" else 80)
     ev.exhaustive = False
